@@ -34,7 +34,7 @@ const (
 	KPtr
 	KTuple
 	KFunc
-	KArg // (part of) the entry point's request argument; Cell = field path
+	KArg  // (part of) the entry point's request argument; Cell = field path
 	KFact // a boolean of unknown value; when it equals B the fact named Cell holds (Src: the transaction under whose lock)
 )
 
@@ -195,18 +195,18 @@ type Snapshot struct {
 }
 
 type TS struct {
-	c      *Ctx
-	Events map[string]*Event // dedup by key
-	Snaps  []Snapshot
-	Undec  []string
-	entry  *ssa.Function
-	stack  []*ssa.Function
-	budget int
-	memo   map[string][]outcome
+	c            *Ctx
+	Events       map[string]*Event // dedup by key
+	Snaps        []Snapshot
+	Undec        []string
+	entry        *ssa.Function
+	stack        []*ssa.Function
+	budget       int
+	memo         map[string][]outcome
 	pendingLegal map[string]AV
-	inline map[*ssa.Function]bool
-	allocReach map[*ssa.Function]bool
-	visitedFns map[*ssa.Function]bool
+	inline       map[*ssa.Function]bool
+	allocReach   map[*ssa.Function]bool
+	visitedFns   map[*ssa.Function]bool
 }
 
 func NewTS(c *Ctx) *TS {
